@@ -163,6 +163,7 @@ def job_history(job):
                         'f_nested': (f_nested, lambda a, b: (a * b + b) * a)}
             registered = mk_reg(alg)
             steps = []
+            focus = [None]
             keysets = [tuple(rng.sample(range(N), rng.randint(1, min(N, 3)))) for _ in range(3)]
             returned = []
             for s in range(cfg.get('steps', 25)):
@@ -190,11 +191,25 @@ def job_history(job):
                     if not cands:
                         kind, name = 'unary', 'reverse'
                     else:
-                        cn = rng.choice(cands)
+                        # one blade of grade >= 3 per history is revisited often, through spellings of either parity (what an
+                        # earlier spelling left behind in the algebra must not leak into a later one)
+                        deep = [n for n in cands if len(n) >= 4]
+                        if focus[0] is None and deep:
+                            focus[0] = rng.choice(deep)
+                        cn = focus[0] if focus[0] is not None and rng.random() < 0.7 else rng.choice(cands)
                         g1, g2 = list(cn[1:]), list(cn[1:])
-                        rng.shuffle(g1)
+                        for _try in range(4):
+                            rng.shuffle(g1)
+                            if ''.join(g1) != cn[1:]:
+                                break
                         rng.shuffle(g2)
                         name = ('e' + ''.join(g1), 'e' + ''.join(g2), alg.canon2bin[cn])
+                        # independent expectation: spelling s of the blade named cn is parity(s -> cn) times that blade
+                        def _par(sp, cn=cn):
+                            perm = [cn[1:].index(c) for c in sp[1:]]
+                            return -1 if sum(1 for i_ in range(len(perm)) for j_ in range(i_ + 1, len(perm)) if perm[i_] > perm[j_]) % 2 else 1
+                        p1_, p2_ = _par(name[0]), _par(name[1])
+                        spelled_exp = O.nz(fr.to_ref((name[2], 0), [F(3) * p1_ * p2_, F(3) * p1_])) if name[2] else None
 
                 def run(A, reg):
                     a, b = mv_from(A, ks, list(av)), mv_from(A, ks2, list(bv))
@@ -230,6 +245,10 @@ def job_history(job):
                     # direct evaluation as the independent expectation as well
                     pass
                 ok = g[0] == e[0] and (g[1] == e[1] if g[0] == 'raise' else _eq(g[1], e[1]))
+                if ok and kind == 'spelling' and spelled_exp is not None:
+                    ok = g[0] == 'value' and _eq(g[1], spelled_exp)
+                    if not ok:
+                        e = ('value', spelled_exp)
                 steps.append([kind, list(name) if isinstance(name, tuple) else name, ks, ks2])
                 if got[0] == 'value':
                     for m in got[1][1]:
